@@ -38,6 +38,9 @@ func setTCPNoDelay(fd int, b bool) (err error) {
 // Wrapper around the socket system call that marks the returned file
 // descriptor as nonblocking and close-on-exec.
 func sysSocket(family, sotype, proto int) (int, error) {
+	if e := verifFault(vfltSocket, family); e != 0 {
+		return -1, os.NewSyscallError("socket", e)
+	}
 	// See ../syscall/exec_unix.go for description of ForkLock.
 	syscall.ForkLock.RLock()
 	s, err := syscall.Socket(family, sotype, proto)
@@ -70,6 +73,10 @@ func writev(fd int, bs [][]byte, ivs []syscall.Iovec) (n int, err error) {
 	if iovLen == 0 {
 		return 0, nil
 	}
+	if e := verifFault(vfltWritev, fd); e != 0 {
+		resetIovecs(bs, ivs[:iovLen])
+		return -1, e
+	}
 	// syscall
 	r, _, e := syscall.RawSyscall(syscall.SYS_WRITEV, uintptr(fd), uintptr(unsafe.Pointer(&ivs[0])), uintptr(iovLen))
 	resetIovecs(bs, ivs[:iovLen])
@@ -85,6 +92,10 @@ func readv(fd int, bs [][]byte, ivs []syscall.Iovec) (n int, err error) {
 	iovLen := iovecs(bs, ivs)
 	if iovLen == 0 {
 		return 0, nil
+	}
+	if e := verifFault(vfltReadv, fd); e != 0 {
+		resetIovecs(bs, ivs[:iovLen])
+		return -1, e
 	}
 	// syscall
 	r, _, e := syscall.RawSyscall(syscall.SYS_READV, uintptr(fd), uintptr(unsafe.Pointer(&ivs[0])), uintptr(iovLen))
